@@ -194,6 +194,26 @@ ConstFold ==
        e \in {Bin("FloorDiv", I, CI(2)), Bin("Mod", Bin("Add", I, CI(1)), CI(4)), Bin("Sub", CI(3), I), Bin("BitXor", I, CI(1)), Bin("RShift", I, CI(1)),
               CallN("min", <<I, CI(2)>>), Sub(Li(<<CI(3), CI(2), CI(1), CI(0)>>), I)}}
 
+\* a subscript index held in a VARIABLE: assigned a literal unconditionally, in one or both branches of an if, by an
+\* augmented assignment, or inside a loop (the arg-max idiom); negative constant indices (Python: from the end)
+IdxBases == {[arg |-> ArgT("t", TTup(<<I2, I2, I2>>)), rt |-> I2], [arg |-> Arg("t", TList(TBool, 3)), rt |-> TBool], [arg |-> Arg("t", TList(I2, 3)), rt |-> I2],
+             [arg |-> ArgT("t", TTup(<<I2, I4, I2>>)), rt |-> I4]}
+J == Name("j")
+IdxVar ==
+  UNION {LET sg == <<bs.arg, Arg("c", TBool), Arg("a", I2)>> IN
+     {FunDef("f", sg, <<Assign("i", CI(k0)), If(Cc, <<Assign("i", CI(k1))>>, <<>>), Ret(Sub(T0, I))>>, bs.rt) : k0 \in 0..2, k1 \in 0..2}
+     \cup {FunDef("f", sg, <<If(Cc, <<Assign("i", CI(k1))>>, <<Assign("i", CI(k2))>>), Ret(Sub(T0, I))>>, bs.rt) : k1 \in 0..2, k2 \in 0..2}
+     \cup {FunDef("f", sg, <<Assign("i", CI(k0)), Ret(Sub(T0, I))>>, bs.rt) : k0 \in 0..2}
+     \cup {FunDef("f", sg, <<Assign("i", CI(k0)), Aug("i", "Add", CI(1)), Ret(Sub(T0, I))>>, bs.rt) : k0 \in 0..1}
+     \cup {FunDef("f", sg, <<Assign("i", CI(0)), For("k", Range(2), <<If(Cc, <<Assign("i", Name("k"))>>, <<>>)>>), Ret(Sub(T0, I))>>, bs.rt)}
+     \cup {FunDef("f", sg, <<Assign("i", CI(0)), For("k", Range(3), <<Assign("i", Name("k"))>>), Ret(Sub(T0, I))>>, bs.rt)}
+     \cup {FunDef("f", sg, <<Ret(Sub(T0, Un("USub", CI(k))))>>, bs.rt) : k \in 1..3}
+     \cup {FunDef("f", sg, <<Assign("i", CI(k0)), If(Cc, <<Assign("i", CI(k1))>>, <<>>), Ret(Bin("Add", A, Sub(Li(<<CI(1), CI(3), CI(0)>>), I)))>>, I4) : k0 \in 0..2, k1 \in 0..2}
+     : bs \in IdxBases}
+  \cup {FunDef("f", <<Arg("l", TList(I2, 3)), Arg("c", TBool)>>,
+                <<Assign("j", CI(0)), For("i", CallN("range", <<CI(1), CI(3)>>), <<If(Cmp(op, Sub(Name("l"), I), Sub(Name("l"), J)), <<Assign("j", I)>>, <<>>)>>), Ret(r)>>, I2) :
+           op \in {"Gt", "Lt"}, r \in {Sub(Name("l"), J), J}}
+
 Pool == CASE Family = "loopif" -> LoopIf [] Family = "elif" -> Elif [] Family = "nested" -> Nested
           [] Family = "listidx" -> ListIdx [] Family = "swapuse" -> SwapUse [] Family = "ifaug" -> IfAug
           [] Family = "iftest" -> IfTest
@@ -203,6 +223,7 @@ Pool == CASE Family = "loopif" -> LoopIf [] Family = "elif" -> Elif [] Family = 
           [] Family = "tupvar" -> TupVar
           [] Family = "names" -> Names
           [] Family = "constfold" -> ConstFold
+          [] Family = "idxvar" -> IdxVar
 Init == p \in Pool
 Next == FALSE /\ p' = p
 Spec == Init /\ [][Next]_p
